@@ -11,18 +11,31 @@ Inductive sspec :=
 | SLf (payload : list N)          (* digest of a leaf payload *)
 | SNd (a b : sspec)               (* digest of two digests *)
 | SJunk (k : N)                   (* 32 fresh random bytes, tag k *)
-| SRootOf (L' : list (list N)).   (* root of another tree *)
+| SRootRepl (q : N) (x : list N). (* root of the tree over L with leaf q replaced by x *)
 
 Definition junk (k : N) : bt := BHex (BLit [k]).
 Definition payloads (L : list (list N)) : list bt := map BLit L.
 
-Fixpoint sden (t : tree) (s : sspec) : bt :=
+(* compact description of the committed leaves of a case: leaf i of the tree tagged [tag] *)
+Definition gl (kind tag i : N) : list N := [kind; tag / 256; tag mod 256; i / 256; i mod 256].
+Fixpoint nseq (start : N) (len : nat) : list N :=
+  match len with O => [] | S k => start :: nseq (start + 1) k end.
+Definition gl_list (kind tag n : N) : list (list N) := map (gl kind tag) (nseq 0 (N.to_nat n)).
+
+Fixpoint replace_nth {A} (q : nat) (x : A) (l : list A) : list A :=
+  match l, q with
+  | [], _ => []
+  | _ :: r, O => x :: r
+  | a :: r, S q' => a :: replace_nth q' x r
+  end.
+
+Fixpoint sden (L : list (list N)) (t : tree) (s : sspec) : bt :=
   match s with
   | SN p => node_at t p
   | SLf x => LeafH (BLit x)
-  | SNd a b => Node (sden t a) (sden t b)
+  | SNd a b => Node (sden L t a) (sden L t b)
   | SJunk k => junk k
-  | SRootOf L' => mt_root (mk_tree (payloads L'))
+  | SRootRepl q x => mt_root (mk_tree (payloads (replace_nth (N.to_nat q) x L)))
   end.
 
 Definition verdict (r : result bool) : obs :=
@@ -37,11 +50,9 @@ Definition verdict (r : result bool) : obs :=
 Definition run_stm_verify (L : list (list N)) (rt : sspec) (nrl : N)
     (leaves : list (list N)) (vals : list sspec) (idxs : list N) : obs :=
   let t := mk_tree (payloads L) in
-  verdict (ver_bpath (sden t rt) nrl (payloads leaves) (map (sden t) vals) idxs).
+  verdict (ver_bpath (sden L t rt) nrl (payloads leaves) (map (sden L t) vals) idxs).
 
 (* canonical name of a digest: the first heap position holding it *)
-Fixpoint nseq (start : N) (len : nat) : list N :=
-  match len with O => [] | S k => start :: nseq (start + 1) k end.
 Definition all_nodes (t : tree) : list bt :=
   map (node_at t) (nseq 0 (N.to_nat (nr_nodes (t_n t)))).
 Definition canon (nodes : list bt) (v : bt) : obs :=
